@@ -8,7 +8,7 @@ from vlib import chx
 
 HARNESS = os.path.join(os.path.dirname(__file__), "chx_C17.py")
 QUICK = [("chk_template_matches_path_lyyx", 170, {"quiet": True}), ("chk_template_matches_path_lxy", 170, {"quiet": True}), ("chk_tile_path_renders_position", 170),
-         ("chk_builder_records_pio", 40), ("chk_toast_base_records_depth", 90)]
+         ("chk_builder_records_pio", 40), ("chk_toast_base_records_depth", 90), ("chk_toast_tiler_levels", 200)]
 THOROUGH = [(c[0], c[1] * 4) + tuple(c[2:]) for c in QUICK]
 
 
@@ -104,7 +104,7 @@ def cases(tier):
 
 def check(run):
     run.uses(tp.PyramidIO.__init__, tp.PyramidIO.tile_path, tp.PyramidIO._tile_path_LsYsYX, tp.PyramidIO._tile_path_LXY, tp.PyramidIO.get_path_scheme,
-             tb.Builder.__init__, tb.Builder.toast_base, tb.Builder.write_index_rel_wtml, tb.Builder.create_wtml_folder, tft.FitsTiler.tile)
+             tb.Builder.__init__, tb.Builder.toast_base, tb.Builder.write_index_rel_wtml, tb.Builder.create_wtml_folder, tft.FitsTiler.tile, tft.FitsTiler._tile_toast)
     run.bound(fields="level / x / y as decimal strings of <= 2 digits (symbolic strings); positions n <= 12 for the integer rendering", schemes="L/Y/YX and LXY", formats="png, jpg, npy, fits",
               histories="fresh, repeated, repeated with override x TAN / TOAST",
               study_tile_format="symbolic image sizes / pixels (as C08), image default format != pyramid default format")
